@@ -323,6 +323,31 @@ MIXED_CASES = [
 ]
 
 
+# the text of a value depends on the value only - not on whether an earlier rendering of the same object was
+# interrupted (a member whose _str_ failed and was removed since; a rendering begun when the stack was almost used up)
+INTERRUPTED = [
+    ("def o = <*_str_ = fn(self) error 'x'*>; def c = [1, o, 'a']; do string(c) catch all 0 end; delete_at(c, 1)", "[1, 'a']"),
+    ("def o = <*_str_ = fn(self) error 'x'*>; def c = <<<1 => o, 2 => 'b'>>>; do string(c) catch all 0 end; remove(c, 1)", "<<<2 => 'b'>>>"),
+    ("def o = <*_str_ = fn(self) error 'x'*>; def c = <<1, o>>; do string(c) catch all 0 end; remove(c, o)", "<<1>>"),
+    ("def o = <*_str_ = fn(self) error 'x'*>; def c = [[o], <<2>>]; do string(c) catch all 0 end; delete_at(c[0], 0)", "[[], <<2>>]"),
+    ("def c = [1, [2, 3], <<<'k' => [4]>>>]; def f(n) if n == 0 then string(c) else f(n - 1); "
+     "for d in [50, 100, 150, 200, 300, 400, 600, 900] do do f(d) catch all 0 end end", "[1, [2, 3], <<<'k' => [4]>>>]"),
+]
+
+
+def check_interrupted(cx):
+    n = 0
+    for history, fresh in INTERRUPTED:
+        o = cx.im.run(f"do {history}; [string(c), string({fresh}), c == {fresh}] end")
+        n += 1
+        cx.n_eval += 1
+        if o[0] != "val" or str(o[1]) != str(cx.im.run(f"[string({fresh}), string({fresh}), TRUE]")[1]):
+            cx.run.violation("interrupted:" + history[:80],
+                             f"text-depends-on-history: after {history}, [string(c), string({fresh}), c == {fresh}] is "
+                             f"{str(o[1])[:120] if o[0] == 'val' else o[:2]}", {"kind": "interrupted"})
+    return n
+
+
 def check_rep_cases(cx):
     """sets / maps that receive two equal representatives: which one is kept
     (and so the text) follows the insertion order"""
@@ -1153,6 +1178,7 @@ def run(run):
     report_bad(cx, M.validate(run, events, "Val_Trace validation of the fixed adversarial values"),
                events, meta, "fixed")
     check_rep_cases(cx)
+    check_interrupted(cx)
     check_date_difference(cx)
     check_identifier_keys(cx)
 
@@ -1264,6 +1290,8 @@ def replay(run, case):
                 evs.append(ne)
         for kk, why in M.validate(run, evs, "replay"):
             run.violation(f"replay:{case['meta'][kk]} @{why}", f"{why}: rejected by Val_Trace", case)
+    elif k == "interrupted":
+        check_interrupted(cx)
     elif k in ("rep", "mixed"):
         check_rep_cases(cx)
     elif k == "decimal":
